@@ -141,7 +141,7 @@ func ZZC17(n int) {
 		// nothing changed
 		zzv.Assert(zzState(r, m) == before, "rejected-Handle-changed-Routes-or-Allow")
 		oa, wa := zzServe(r, zzReq(pm, path))
-		same := oa.id == ob.id && oa.node == ob.node && wa.status == wb.status && oa.params.Count() == ob.params.Count() && (!oa.node || oa.pattern == ob.pattern)
+		same := oa.id == ob.id && oa.node == ob.node && wa.status == wb.status && oa.params.equal(ob.params) && (!oa.node || oa.pattern == ob.pattern)
 		zzv.Assert(same, "rejected-Handle-changed-a-dispatch-outcome")
 		zzv.Assert(wa.h.Get("Allow") == wb.h.Get("Allow"), "rejected-Handle-changed-an-Allow-header")
 		zzExpectDispatch("after-reject", m, path, pm, oa)
